@@ -539,6 +539,9 @@ H("C03", "mpq", _SP, "thorough", "C03.b sparse codec, literal-run boundaries 0x8
   ["c03b_sparse_roundtrip_run_127_131_n138"], _spfn,
   "R in 127..=131 and Z symbolic; run bytes 0x55 except positions 0, 1, 126..R (symbolic non-zero); the bytes behind the zero run symbolic", "N = 138; per-loop unwinding bounds (checked by unwinding assertions)",
   stubs=[FMT, BVEC], timeout=3000, mem_gb=30,
+  # arrays up to 200 elements are split into one symbol per element (CBMC's default limit is 64): the 176-byte model buffer then costs
+  # one multiplexer per element and write instead of the array theory's quadratic constraints (> 30 GB)
+  cbmc_args=["--max-field-sensitivity-array-size", "200"],
   unwindset=[(r"sparse_bv::compress$", r"^while pb_in_buffer < pb_in_buffer_end", 8),
              (r"sparse_bv::compress$", r"^loop \{", 141),
              (r"sparse_bv::compress$", r"^while number_of_non_zeros > 0x81", 3),
